@@ -155,5 +155,11 @@ example : RX exR ∧ (9, [exRedel]) ∈ exR.redelQueue := by
     subst hk'
     exact ⟨[exRedel], by decide, exRedel, List.mem_singleton.mpr rfl, rfl⟩
 
+/-- leaves the asset's staked total and custody cover unchanged: a successful `MsgRedelegate` keeps the staked total of
+    every alliance denom, the moved asset's included, and lowers no custody gap (scope: the custody scope of C01) -/
+theorem redelegation_keeps_staked_total_and_custody_cover (del : Acct) (s t' : ValId) (d' : Denom) (amt : Int) (d : Denom)
+    (w w' : World) (hg : Good d w) (h : step (.redelegate del s t' d' amt) w = (.ok (), w')) :
+    staked w' d = staked w d ∧ gap w d ≤ gap w' d ∧ Good d w' := redelegate_keeps_staked_total del s t' d' amt d w w' hg h
+
 end C15
 end Alliance
